@@ -263,6 +263,20 @@ def _shape_cases(n: int) -> list[Any]:
     return out
 
 
+
+def _x_runner(tier: str, seed: int, workers: int):
+    from xh import c04_x
+    from xh.runner import run_obligations
+
+    return run_obligations("xh.c04_x", c04_x.QUICK, 120 if tier == "quick" else 300, workers=workers, signatures=c04_x.SIGNATURES)
+
+
+def replay_obligation(payload):
+    from xh.runner import replay_call
+
+    return replay_call(payload)
+
+
 def spec(tier: str, seed: int) -> Spec:
     values = VALUES[:2] if tier == "quick" else VALUES
     cases = trees(values) + _shape_cases(3 if tier == "quick" else 5)
@@ -270,6 +284,7 @@ def spec(tier: str, seed: int) -> Spec:
     fams = [Family(f"tree[{k}:{k + chunk}]", make_harness(cases[k : k + chunk]), variables="selectors: tree, value variant, twins outside the tree, format, source optimisation, liveness at read time") for k in range(0, len(cases), chunk)]
     return Spec(
         families=fams,
+        obligation_runners=[_x_runner],
         functions=FUNCTIONS,
         bounds={"trees": len(cases), "value_variants": len(values), "formats": FORMATS, "liveness": ["all alive", "none alive (registries cleared)", "each single subtree alive"], "twins": ["none", "created before", "created after"]},
         rule="a case = (tree, twins, format, optimized sources, liveness, alive subtree); all non-trivial (every position compared with the snapshot); distinct by that tuple",
